@@ -41,6 +41,8 @@ SKELS = [
     dict(name="telechelic-prefix-twice", text="OCC{[<][<]C(N)C[>][>]}|gauss(100,20)|CCO", units=["[<]C(N)C[>]"], start=1.0),
     dict(name="chlorinated-unit-discrete-law", text="[H]{[<][<]C(Cl)C[>][>]}|flory_schulz(0.05)|CO", units=["[<]C(Cl)C[>]"], start=1.0),
     dict(name="same-unit-in-adjacent-blocks", text="[H]{[<][<]C(N)C[>][>]}|uniform(20,120)|{[<][<]C(N)C[>][>]}|gauss(60,20)|CO", units=["[<]C(N)C[>]", "[<]C(N)C[>]"], start=1.0, splits=True),
+    dict(name="uniform-window-inside-one-unit", text="OC{[<][<]CO[>][>]}|uniform(30, 50)|N", units=["[<]CO[>]"], start=1.0),
+    dict(name="locally-symmetric-substituent", text="OC{[<][<]CC(F)(F)[>][>]}|uniform(0, 200)|N", units=["[<]CC(F)(F)[>]"], start=1.0),
     dict(name="poisson-block", text="[H]{[<][<]C(N)C[>][>]}|poisson(65)|CO", units=["[<]C(N)C[>]"], start=1.0),
 ]
 
